@@ -58,8 +58,11 @@ func (eval Evaluator[T]) Evaluate(input interface{}, p interface{}, targetScale 
 		return eval.EvaluatePolynomialVectorFromPowerBasis(powerbasis.Value[1].Level(), polyVec, powerbasis, targetScale)
 	}
 
-	if level, depth := powerbasis.Value[1].Level(), levelsConsumedPerRescaling*polyVec.Value[0].Depth(); level < depth {
-		return nil, fmt.Errorf("%d levels < %d log(d) -> cannot evaluate poly", level, depth)
+	// The evaluation rescales ceil(log2(degree+1)) = bits.Len64(degree) times (one more than Depth() = ceil(log2(degree))
+	// for a degree that is a power of two): refuses here what the final rescaling (or the level simulation) cannot do.
+	/* #nosec G115 -- Degree cannot be negative */
+	if level, depth := powerbasis.Value[1].Level(), levelsConsumedPerRescaling*bits.Len64(uint64(polyVec.Value[0].Degree())); level < depth {
+		return nil, fmt.Errorf("%d levels < %d = ceil(log2(d+1)) levels -> cannot evaluate poly", level, depth)
 	}
 
 	/* #nosec G115 -- Degree cannot be negative */
